@@ -654,8 +654,39 @@ def expr_regex(c):
     raise KeyError(f)
 
 
+def yaql_literal(v):
+    """the spelling of a plain value as a yaql literal (single-quoted strings, C16.roundtrip_single), or None"""
+    if v is None:
+        return 'null'
+    if isinstance(v, bool):
+        return 'true' if v else 'false'
+    if isinstance(v, int):
+        return str(v) if v >= 0 else '(%d)' % v
+    if isinstance(v, str):
+        if any(0xD800 <= ord(ch) <= 0xDFFF for ch in v):
+            return None
+        return "'" + v.replace('\\', '\\\\').replace("'", "\\'") + "'"
+    if isinstance(v, (list, tuple)):
+        parts = [yaql_literal(x) for x in v]
+        return None if any(x is None for x in parts) else '[' + ', '.join(parts) + ']'
+    return None
+
+
+def inline_literals(text, data):
+    """the same expression with its plain arguments written as literals instead of `$.name` references: the text of
+    the expression then CONTAINS the strings (the engine sees many expressions that differ only inside a literal)"""
+    for k in sorted(data, key=len, reverse=True):
+        lit = yaql_literal(data[k])
+        if lit is not None:
+            text = re.sub(r'\$\.%s(?![A-Za-z0-9_])' % re.escape(k), lambda m: lit, text)
+    return text
+
+
 def case_expr(c):
-    return expr_regex(c) if c['f'].startswith('re.') else expr_strings(c['f'], c['a'], c.get('form', 0))
+    text, data = expr_regex(c) if c['f'].startswith('re.') else expr_strings(c['f'], c['a'], c.get('form', 0))
+    if c.get('form', 0) % 5 == 4 and c['f'] not in ('characters',):
+        text = inline_literals(text, data)
+    return text, data
 
 
 def case_for_model(c):
